@@ -212,6 +212,19 @@ def runOpTransform (op : String) (args : List String) : String :=
         okIf (Spec.sameWords a b) "words-changed",
         okIf (Spec.skeleton c == Spec.skeleton a) "uncollapse-differs"]
     | _, _, _ => bad
+  | "P.post", [call, b] =>
+    -- what must hold of the RESULT of `call` whatever came before it in a sequence: only post-conditions that are
+    -- theorems for every well-formed input (verylow_post, root_post, collapse_no_unary, binarize_arity)
+    match decTree b with
+    | some b =>
+      let c := parseTCall call
+      match c.name with
+      | "punctuation_verylow" => firstFail [okIf (Spec.WF b) "not-well-formed", okIf (Spec.verylowPost b) "punctuation-not-beside-left-neighbour"]
+      | "punctuation_root" => firstFail [okIf (Spec.WF b) "not-well-formed", okIf (Spec.rootPost b) "punctuation-not-at-root"]
+      | "collapse_unary_chains" => firstFail [okIf (Spec.WFc b) "not-well-formed", okIf (!hasUnary b) "unary-left"]
+      | "binarize" => firstFail [okIf (Spec.WF b) "not-well-formed", okIf (maxArity b ≤ 2) "arity-above-two"]
+      | _ => "ok"
+    | none => bad
   | _, _ => unknownOp
 
 end Driver
